@@ -19,7 +19,8 @@ RULE = (
     "{PLSSDesc init with text config / Config object, parse(**kw) committed and not, config assignment then parse, "
     "Tract init, Tract.parse(**kw), preprocess, find_twprge, find_sec}, each followed by 0..3 further calls on the same object "
     "(dry-run parse, parse, parse_tracts with and without keywords, dry-run parse of every tract). A second sub-check feeds invalid arguments and "
-    "requires exactly the documented exception class. Non-trivial: text has a Twp/Rge-like and a section-like token, or a "
+    "requires exactly the documented exception class. A volume sub-check creates 12 000 (thorough: 40 000) descriptions / tracts / TRS with pairwise "
+    "different Twp/Rge/Sec in one process. Non-trivial: text has a Twp/Rge-like and a section-like token, or a "
     "non-default configuration. Distinct = distinct (text, config text, entry)."
 )
 ASSUMPTIONS = [
@@ -187,6 +188,39 @@ def oracle_master(c):
 BAD_CASE = st.fixed_dictionaries({"text": soup.ANY_TEXT, "bad": st.sampled_from([b[0] for b in BAD])})
 MASTER_CASE = st.fixed_dictionaries({"text": soup.ANY_TEXT, "which": st.sampled_from(["ns", "ew"])})
 
+# volume: a process may see any number of distinct Twp/Rge/Sec strings ------------------------------------------------------
+
+def enum_volume(tier):
+    n = 12000 if tier == "quick" else 40000
+    return [{"how": how, "n": n} for how in ("plss", "tract_from_twprgesec", "trs")]
+
+
+def oracle_volume(c):
+    """n descriptions / tracts / TRS with pairwise different Twp/Rge/Sec in one process: the last must work like the first."""
+    from pytrs import TRS
+    n = c["n"]
+    count = 0
+    for k in range(n):
+        t, r, sec = k % 997 + 1, (k // 997) % 991 + 1, k % 36 + 1
+        if c["how"] == "plss":
+            if k % 4:            # (a parse costs ~0.3 ms; every fourth k keeps the sub-check at a few seconds)
+                TRS(f"{t}s{r}e{sec:02d}")
+                continue
+            d = PLSSDesc(f"T{t}N-R{r}W Sec {sec}: NE/4")
+            if len(d.tracts) != 1 or d.tracts[0].trs != f"{t}n{r}w{sec:02d}":
+                return [Failure("volume_wrong_result", f"description #{k}: T{t}N-R{r}W Sec {sec} parsed to {[x.trs for x in d.tracts]}", k=k)]
+        elif c["how"] == "tract_from_twprgesec":
+            x = Tract.from_twprgesec("NE/4", t, r, sec)
+            if x.trs != f"{t}n{r}w{sec:02d}":
+                return [Failure("volume_wrong_result", f"Tract.from_twprgesec #{k} gives {x.trs}", k=k)]
+        else:
+            x = TRS(f"{t}n{r}e{sec:02d}")
+            if x.trs != f"{t}n{r}e{sec:02d}" or x.twp_num != t or x.sec_num != sec:
+                return [Failure("volume_wrong_result", f"TRS #{k} gives {x.trs}", k=k)]
+        count += 1
+    return []
+
+
 SUBS = [
     Sub("plssdesc", oracle_plss, strategy=lambda tier: PLSS_CASE, nontrivial=nontrivial, classes=parsing.text_classes,
         render=parsing.render, n={"quick": 1500, "thorough": 12000}, shards={"quick": 8, "thorough": 16}, text_keys=("text",),
@@ -201,6 +235,8 @@ SUBS = [
     Sub("master_config", oracle_master, strategy=lambda tier: MASTER_CASE, classes=lambda c: [c["which"]],
         render=lambda c: {"which": c["which"], "text": c["text"]["text"]}, n={"quick": 150, "thorough": 1500}, shards={"quick": 2, "thorough": 4},
         text_keys=("text",)),
+    Sub("volume", oracle_volume, enumerate=enum_volume, exhaustive=False, nontrivial=lambda c: True, classes=lambda c: [f"how={c['how']}"], render=lambda c: c,
+        shards={"quick": 3, "thorough": 3}, max_shrink=0),
 ]
 
 # thorough tier: coverage-guided fuzzing (atheris / libFuzzer) of the same oracle, see fuzz/fuzz_parse.py
